@@ -623,11 +623,14 @@ fn parse_escape_sequence<'a>(
                 'r' => '\r',
                 't' => '\t',
                 'u' if input.peek() == Some('{') => {
+                    let after_u = input.save();
                     input.next(); // consume '{'
                     let mut hex = String::new();
+                    let mut closed = false;
                     while let Some(ch) = input.peek() {
                         if ch == '}' {
                             input.next();
+                            closed = true;
                             break;
                         }
                         if ch.is_ascii_hexdigit() && hex.len() < 6 {
@@ -637,23 +640,42 @@ fn parse_escape_sequence<'a>(
                             break;
                         }
                     }
-                    char::from_u32(u32::from_str_radix(&hex, 16).unwrap_or(0)).unwrap_or('\u{FFFD}')
+                    let code = if closed {
+                        u32::from_str_radix(&hex, 16).ok().and_then(char::from_u32)
+                    } else {
+                        None
+                    };
+                    match code {
+                        Some(ch) => ch,
+                        None => {
+                            // not the escape of a character (no digits, no closing
+                            // brace, not a code point): an unknown escape, the
+                            // text behind `\u` stays as it is
+                            input.rewind(after_u);
+                            next_ch
+                        }
+                    }
                 }
                 'x' => {
+                    let after_x = input.save();
                     let mut hex = String::new();
                     for _ in 0..2 {
-                        if let Some(ch) = input.peek() {
-                            if ch.is_ascii_hexdigit() {
+                        match input.peek() {
+                            Some(ch) if ch.is_ascii_hexdigit() => {
                                 hex.push(ch);
                                 input.next();
                             }
+                            _ => break,
                         }
                     }
                     if hex.len() == 2 {
                         char::from_u32(u32::from_str_radix(&hex, 16).unwrap_or(0))
                             .unwrap_or('\u{FFFD}')
                     } else {
-                        next_ch // Just use the character after backslash
+                        // an unknown escape: the text behind `\x` stays as it is
+                        // (a single hex digit must not be dropped)
+                        input.rewind(after_x);
+                        next_ch
                     }
                 }
                 c if c == quote_char => quote_char, // Escaped quote
